@@ -542,7 +542,14 @@ class _ChainedRunnerIterator(Iterable[_ValueT]):
     if isinstance(state, _IteratorState):
       assert len(self._iterators) == 1, f'{len(self._iterators)=}'
       state = {it.name: state for it in self._iterators}
-    iterators = [it.from_state(state[it.name]) for it in self._iterators]
+    # Restoring an iterator also restores the upstream iterator it reads from.
+    # Keep that one rather than a separately restored copy that never runs, so
+    # that every stage reports the aggregates of the iterator that is consumed.
+    last = self._iterators[-1]
+    iterators = [last.from_state(state[last.name])]
+    for _ in self._iterators[1:]:
+      (upstream,) = iterators[0]._data_sources  # pylint: disable=protected-access
+      iterators.insert(0, upstream)
     return _ChainedRunnerIterator(
         iterators,
         with_result=self._with_result,
